@@ -1052,6 +1052,9 @@ class n0dict(n0dict_):
                     # ================================
                     # FOUND: the last is n0dict
                     # ================================
+                    if cur_node_name_index is None and not cur_not_found_xpath_list:
+                        # '..' surfaced to the root: the root is found, the way an empty xpath finds it (no name, no index)
+                        return cur_parent_node, None, nxt_parent_node, cur_found_xpath_str, None
                     return cur_parent_node, cur_node_name_index, nxt_parent_node, xpath_found_str + '/' + cur_node_name_index, None
             # ..................................................................
             # Try to parse as list
